@@ -31,10 +31,15 @@ QUICK = [('Calls_req_quick.cfg', 'all kinds, <=2 inputs x 12 required/default de
          ('Calls_secrets.cfg', 'reusable workflow, <=2 secrets x required x supplied/omitted/extra/inherit'),
          ('Calls_outputs.cfg', 'all kinds, <=2 outputs x references declared/undeclared/case-flipped, skip_inputs/skip_outputs'),
          ('Calls_names.cfg', 'actions declaring inputs named args / entrypoint'),
+         ('Calls_values.cfg', 'reusable workflow, one input of type string/number/boolean/untyped x every literal value (scalar style '
+                              'plain/single/double x text class) and placeholder kind'),
+         ('Calls_uses.cfg', 'local action in a sub-directory and at the repository root x every spelling of `uses:` that denotes '
+                            'it x inputs and steps.*.outputs'),
          ('Calls_mix.cfg', 'reusable workflow, input x <=2 secrets x output together: with / secrets / inherit / needs.*.outputs')]
 THOROUGH = [('Calls_req3.cfg', 'all kinds, <=3 inputs x 12 declarations x supplied(case-flipped)/omitted'),
             ('Calls_req_spell.cfg', 'all kinds, <=2 inputs, every declared spelling x every call spelling'),
-            ('Calls_types.cfg', 'reusable workflow, <=2 typed inputs (required/default variants) x 11 value kinds')]
+            ('Calls_types.cfg', 'reusable workflow, <=2 typed inputs (required/default variants) x 11 value kinds'),
+            ('Calls_values2.cfg', 'reusable workflow, <=2 inputs x 4 declared types x 37 value kinds (styles x classes, placeholders)')]
 
 
 def dkey(ds):
@@ -138,6 +143,7 @@ def run(ck, tier):
         if not os_:
             raise Inconclusive('harness returned nothing for vector %d' % v['id'])
         exp = dkey(v['exp'])
+        unspec = set(dkey(v.get('unspec', [])))     # verdicts the property leaves open (borderline literals)
         if exp:
             nontrivial += 1
         for c, _ in exp:
@@ -151,7 +157,7 @@ def run(ck, tier):
             evals += 1
             got = dkey(o['diags'])
             msgs[o['path']].add(json.dumps(o['msgs']))
-            if sorted(set(got)) != exp:
+            if sorted(set(got) - unspec) != exp:
                 bad_paths.setdefault(o['path'], (got, o))
             else:
                 opx = dkey(v['op'][o['path']])
@@ -163,7 +169,7 @@ def run(ck, tier):
         if bad_paths:
             diff = set()
             for p, (got, o) in bad_paths.items():
-                diff |= set(got) ^ set(exp)
+                diff |= (set(got) - unspec) ^ set(exp)
             kinds = sorted({c for c, _ in diff})
             paths = sorted(bad_paths)
             site = '%s:%s:%s' % (v['d']['kind'], '+'.join(paths), '+'.join(kinds))
@@ -180,7 +186,7 @@ def run(ck, tier):
             key = (site, tuple(shapes))
             if key not in groups:
                 groups[key] = [0, {'site': site, 'what': what,
-                                   'replay': {'kind': 'vector', 'd': v['d'], 'call': v['call'], 'expected': v['exp'],
+                                   'replay': {'kind': 'vector', 'd': v['d'], 'call': v['call'], 'expected': v['exp'], 'unspecified': v.get('unspec', []),
                                               'paths': paths, 'path': p0, 'observed': [list(x) for x in got0],
                                               'differing_classes': kinds, 'differing_decls': shapes}}]
             groups[key][0] += 1
@@ -200,7 +206,7 @@ def run(ck, tier):
                            'property on every vector: the transcription in the specification is out of date' % json.dumps(deviating))
     if drift:
         ck.note('model drift: %d real results satisfy the property but differ from the operational layer of Calls.tla '
-                '(KnownDeviation states whose defect has been repaired in the code)' % drift)
+                '(a repaired KnownDeviation, or a different classification of a borderline literal ~ / TRUE / 0x1F / empty)' % drift)
         ck.cov['model_drift_results'] = drift
     if order_unstable:
         ck.note('C02-relevant: the ORDER of the caller\'s diagnostics differs between repeated runs of the same path for %d '
@@ -233,14 +239,15 @@ def run(ck, tier):
     for vid, os_ in fby.items():
         v = vecs[vid]
         exp = dkey(v['exp'])
+        unspec = set(dkey(v.get('unspec', [])))
         results = {json.dumps(dkey(o['diags'])) for o in os_}
         if len(results) > 1:
             unstable += 1
         for o in os_:
             evals += 1
             got = dkey(o['diags'])
-            if sorted(set(got)) != exp:
-                diff = set(got) ^ set(exp)
+            if sorted(set(got) - unspec) != exp:
+                diff = (set(got) - unspec) ^ set(exp)
                 kinds = sorted({c for c, _ in diff})
                 site = 'workflow:free:%s' % '+'.join(kinds)
                 shapes = decl_shape(v, {n for _, n in diff})
@@ -320,8 +327,13 @@ def run(ck, tier):
                        'UPPER / Mixed; args and entrypoint as the names with special treatment in the step syntax',
                        '"without default" is read per callee kind: default: null is no default for actions (action.yml, bundled '
                        'table) and a default for reusable workflows (Calls.tla HasDefault)',
-                       'value kinds of typed inputs: plain scalars abc / 42 / true / null, one whole-scalar placeholder of type '
-                       'string, number, bool, null, object, any, and an embedded placeholder',
+                       'values of typed inputs: literals in the three scalar styles (plain, single-, double-quoted) x text classes '
+                       'true, false, null, ~, 42, 1.5, 0x1F, abc, empty, TRUE; one whole-scalar placeholder of type string, number, '
+                       'bool, null, object, any; an embedded placeholder.  The text decides the type, the style does not (as the '
+                       'checker documents); for the borderline texts ~, TRUE, 0x1F and the empty scalar the type-mismatch verdict is '
+                       'unspecified: removed before judging, a difference from the operational layer is model drift only',
+                       'local action spellings: ./dir, ./dir/, ./dir/., ./parent/../dir for a sub-directory, ./ and ./. for the '
+                       'repository root; all spellings of one directory must give the same verdicts',
                        'undeclared with.args / with.entrypoint are outside the universe (accepted implicitly for Docker actions)',
                        'required given by an expression is outside the property (not a well-formed declaration)',
                        'message classes are recognised by rule + anchor phrases; an unknown message makes the check inconclusive']
@@ -348,13 +360,14 @@ def replay(path):
         v.update({'paths': ['file'], 'free': 12})
     outs = run_vectors(sd, [v], 'r')
     exp = dkey(rp['expected'])
+    unspec = set(dkey(rp.get('unspecified', [])))
     rc = 0
     for o in outs:
         if o['path'] not in rp['paths']:
             continue
         got = dkey(o['diags'])
         print('path %s: observed %s %s' % (o['path'], got, o['other']))
-        if sorted(set(got)) != exp:
+        if sorted(set(got) - unspec) != exp:
             rc = 1
     print(outs[0]['callee'])
     print(outs[0]['caller'])
